@@ -67,3 +67,6 @@ func VerifServerSide(c *baseClient) VerifServerView {
 	v.Query = sh.VerifQuery()
 	return v
 }
+
+// VerifBase gives replacement stubs of other packages the base client of a mapreduce client.
+func (c *MaprClient) VerifBase() *baseClient { return &c.baseClient }
